@@ -11,7 +11,7 @@ Tokens
 * ostr     `none` | `x<hex>`
 * order    `<clord> <orig:ostr> <orderId:ostr> <qty> <price> <cum> <leaves> <avgPx:num|nan> <status> <side>
             <ticker> <ordType> <account:ostr>`                                   (13 tokens)
-* tstate   `<orderCtr> <execCtr> <n> <registered key>*`
+* tstate   `<orderCtr> <execCtr> <n> <registered key>* <k> {<ClOrdID root> <OrderID>}*`   (`_order_ids`)
 * args     `<clord> <execType> <ordStatus> <cum> <leaves> <last> <price> <orderQty> <orig:ostr> <avgPrice>`
 * schema   `0` (no schema) | `1` (the dictionary check of Model/TesterDict.lean)
 * message  as in `sess.*` (`<mtype>,<tag>:<value>…`)
@@ -94,6 +94,15 @@ def takeN {α} : Nat → List α → Option (List α × List α)
   | n + 1, x :: r => (takeN n r).map fun p => (x :: p.1, p.2)
   | _ + 1, [] => none
 
+def parsePairs : Nat → List String → Option (List (List Nat × Nat) × List String)
+  | 0, r => some ([], r)
+  | n + 1, a :: b :: r => do
+    let root ← Driver.tokStr a
+    let k ← b.toNat?
+    let (ps, r) ← parsePairs n r
+    pure ((root.toList.map Char.toNat, k) :: ps, r)
+  | _ + 1, _ => none
+
 def parseTState : List String → Option (TState × List String)
   | oc :: ec :: n :: rest => do
     let oc ← oc.toNat?
@@ -101,12 +110,18 @@ def parseTState : List String → Option (TState × List String)
     let n ← n.toNat?
     let (ks, rest) ← takeN n rest
     let ks ← ks.mapM Driver.tokStr
-    pure ({ orderCtr := oc, execCtr := ec, registered := ks }, rest)
+    match rest with
+    | k :: rest => do
+      let k ← k.toNat?
+      let (ps, rest) ← parsePairs k rest
+      pure ({ orderCtr := oc, execCtr := ec, registered := ks, orderIds := ps }, rest)
+    | [] => none
   | _ => none
 
 def showTState (st : TState) : String :=
   String.intercalate " " ([toString st.orderCtr, toString st.execCtr, toString st.registered.length]
-    ++ st.registered.map Driver.strTok)
+    ++ st.registered.map Driver.strTok ++ [toString st.orderIds.length]
+    ++ st.orderIds.flatMap fun p => [Driver.strTok (String.ofList (p.1.map Char.ofNat)), toString p.2])
 
 def parseArgs : List String → Option (Args × List String)
   | cl :: ex :: os :: cum :: lv :: last :: px :: oq :: og :: avg :: rest => do
